@@ -2,12 +2,17 @@ package main
 
 // Structured generators for RESP value trees, shared by C01, C02, C06.
 
+// utf8Traps: no CR or LF byte in any of them, but code points whose low byte is one
+var utf8Traps = []string{"\u4e0d", "\u4e0a", "\u010d", "\u010a", "\u040d", "x\u4e0d\u4e0a+FORGED\u4e0d\u4e0a:1\u4e0d\u4e0a", "\u4e0d\u652f\u6301\u7684\u547d\u4ee4", "a\u010d\u010ab", "\u00e9\u00ff"}
+
 var payloadAlphabet = []byte{'a', '\r', '\n', '$'}
 
 // genPayload draws a payload from the classes the properties name.
 func genPayload(r *Rng, lineSafe bool, big bool) []byte {
 	var p []byte
-	switch r.Intn(12) {
+	switch r.Intn(13) {
+	case 12: // valid UTF-8 whose code points end in 0x0D / 0x0A (U+4E0D U+4E0A U+010D U+010A U+040D): bytes, not runes
+		p = []byte(utf8Traps[r.Intn(len(utf8Traps))])
 	case 0:
 		p = []byte{}
 	case 1:
